@@ -139,6 +139,18 @@ def specCovers (c : CmpSpec) (l : ElemLayout) : Bool :=
   l.members.all (fun m => (m.kind == .ptr || m.kind == .fptr) !=
     c.members.any (fun x => x.off == m.off && x.size == m.size))
 
+/-- every function-pointer member (a callback the user must re-attach after a load) sets the warning flag of the
+    stream, or is exempt for a stated reason, or is a recorded gap -/
+def callbacksFlagged (ms : List Member) (flagged exempt gaps : List Nat) : Bool :=
+  ms.all (fun m => m.kind != .fptr || flagged.contains m.idx || exempt.contains m.idx || gaps.contains m.idx)
+
+/-- function-pointer members that neither set the flag nor are exempt -/
+def unflaggedCallbacks (ms : List Member) (flagged exempt : List Nat) : List Nat :=
+  (ms.filter (fun m => m.kind == .fptr && !(flagged.contains m.idx || exempt.contains m.idx))).map (·.idx)
+
+/-- the flag the writer stores: some flagged callback is set -/
+def fpFlagOf (flagged : List Nat) (isSet : Nat → Bool) : Bool := flagged.any isSet
+
 def tableIdsNodup (tbl : List Desc) : Bool := nodupNat ((live tbl).map (·.id))
 
 theorem nodupNat_iff (l : List Nat) : nodupNat l = true → l.Nodup := by
